@@ -8,7 +8,7 @@ simplices containing the node.
 """
 from itertools import combinations
 
-from .. import snap
+from .. import ops, snap
 from . import common
 
 PID = "C03"
@@ -64,7 +64,10 @@ def per_op(mon, net, op, pre, outcome, hist):
     if outcome != "returned":
         return False
     if name in ("remove_simplex_id", "remove_edge", "remove_simplex_ids_from", "remove_edges_from"):
-        ids = [op.args[0]] if name in ("remove_simplex_id", "remove_edge") else list(op.args[0])
+        arg = op.args[0]
+        if isinstance(arg, ops.LiveView):
+            arg = [e for e, (m, _) in pe.items() if arg.filt is None or {"eq": len(m) == arg.filt[1], "geq": len(m) >= arg.filt[1]}[arg.filt[2]]]
+        ids = [arg] if name in ("remove_simplex_id", "remove_edge") else list(arg)
         expect_removed = set()
         for i in ids:
             if i in pe:
@@ -79,7 +82,10 @@ def per_op(mon, net, op, pre, outcome, hist):
         if [n for n, _ in pre[1]] != [n for n, _ in post[1]]:
             return fire("removal-touched-nodes", "removing simplices changed the node set")
     if name in ("remove_node", "remove_nodes_from"):
-        ns = [op.args[0]] if name == "remove_node" else list(op.args[0])
+        arg = op.args[0]
+        if isinstance(arg, ops.LiveView):
+            arg = [n for n, _ in pre[1]]
+        ns = [arg] if name == "remove_node" else list(arg)
         ns = set(n for n in ns if n in dict(pre[1]))
         mon.note("postcond:remove_node")
         mon.ev()
